@@ -1,8 +1,8 @@
-import random
 from collections import deque
 from copy import deepcopy
 
 from cspuz.generator.builder import Builder
+import cspuz.generator.srandom as srandom
 
 
 class SegmentationBuilder2D(Builder):
@@ -47,7 +47,7 @@ class SegmentationBuilder2D(Builder):
             if is_met:
                 return blocks
             cands = self.candidates(blocks)
-            cand = random.choice(cands)
+            cand = srandom.choice(cands)
             blocks = self._copy_with_update(blocks, cand, use_deepcopy=False)
 
     def candidates(self, current):
@@ -192,8 +192,8 @@ class SegmentationBuilder2D(Builder):
 def split_block(block):
     assert len(block) >= 2
     while True:
-        seed_a = random.randint(0, len(block) - 1)
-        seed_b = random.randint(0, len(block) - 1)
+        seed_a = srandom.randint(0, len(block) - 1)
+        seed_b = srandom.randint(0, len(block) - 1)
         if seed_a != seed_b:
             break
     block_set = set(block)
